@@ -123,8 +123,11 @@ class TaskPool:
         if self._tasks:
             done, _ = await asyncio.wait(self._tasks, timeout=timeout, return_when=return_when)
         for task in done:
-            self._tasks.remove(task)
-            self._done.append(task)
+            # There may be more than one coroutine waiting on the same tasks, like two calls to push while the pool is
+            # full, and the task may have already been removed by one of those.
+            if task in self._tasks:
+                self._tasks.remove(task)
+                self._done.append(task)
         return len(done) > 0
 
 
